@@ -1,14 +1,18 @@
 #!/bin/bash
 # usage: tools/seedtest.sh <dir-with-patch.diff> <property> [more properties…]
-# Applies a seeded change to /repo's working tree, runs the named checks (quick),
-# prints which obligations fire, and restores the tree. Never commits.
-d=$1; shift
-cd /repo || exit 2
-if [ -n "$(git status --porcelain)" ]; then echo "/repo not clean"; exit 2; fi
-git apply "$d/patch.diff" || { echo "patch does not apply"; exit 2; }
-trap 'git -C /repo checkout -- . ; git -C /repo clean -fdq' EXIT
+# Applies a seeded change to a scratch worktree of /repo's HEAD (/tmp/seedtestwt,
+# so /repo itself is never modified and other checks can run meanwhile), runs the
+# named checks (quick, dry: no evidence written) against it through SYSL_REPO and
+# prints which obligations fire. `git -C /repo apply` + `./run.sh` + `git -C /repo
+# checkout -- .` gives the same verdicts.
+d=$(readlink -f "$1"); shift
+wt=/tmp/seedtestwt
+if [ ! -d $wt ]; then git -C /repo worktree add --detach $wt HEAD -q || exit 2; fi
+git -C $wt checkout -q --detach "$(git -C /repo rev-parse HEAD)" && git -C $wt checkout -q -- . && git -C $wt clean -fdq
+git -C $wt apply "$d/patch.diff" || { echo "patch does not apply"; exit 2; }
 for p in "$@"; do
-  out=$(VERIF_DIR=/verif /verif/bin/syslcheck -props "$p" -dry 2>&1); rc=$?
+  out=$(SYSL_REPO=$wt VERIF_DIR=/verif /verif/bin/syslcheck -props "$p" -dry 2>&1); rc=$?
   echo "== $p exit=$rc"
   echo "$out" | grep -E "^  (violation|undecided) " | cut -c1-300
 done
+git -C $wt checkout -q -- . ; git -C $wt clean -fdq
